@@ -637,7 +637,7 @@ func c35Parse(fm int, o c35Opts, payload []byte) (es []tpxEntry, err error, pnc 
 		x.es, x.err, x.pnc, x.stack = c35ParseRaw(fm, o, payload)
 		ch <- x
 	}()
-	t := time.NewTimer(10 * time.Second)
+	t := time.NewTimer(5 * time.Second)
 	defer t.Stop()
 	select {
 	case x := <-ch:
@@ -759,7 +759,7 @@ func c35RunFaith(r *vx.Run, cs c35Case, fams []*c35Fam, nontrivial *atomic.Int64
 				continue
 			}
 			if perr == errC35Hang {
-				r.Violation("parser-does-not-terminate/"+c35FmtNames[fm], fmt.Sprintf("parse did not return within 10s %s", ctx()), cs)
+				r.Violation("parser-does-not-terminate/"+c35FmtNames[fm], fmt.Sprintf("parse did not return within 5s %s", ctx()), cs)
 				continue
 			}
 			if perr != nil {
@@ -1176,9 +1176,10 @@ var c35AlphaProto = []byte{0x00, 0x01, 0x02, 0x08, 0x0a, 0x12, 0x18, 0x22, 0x3a,
 // c35Total parses b with every option combination; violation on panic / non-termination.
 func c35Total(r *vx.Run, fm int, b []byte, what string, outcomes *[3]atomic.Int64) {
 	var plainErr error
+	short := strings.HasPrefix(what, "short")
 	for _, o := range c35OptsFor(fm) {
-		if fm == c35Proto && o.TypeUnit {
-			continue // label decoration only; halves the cost
+		if o.TypeUnit && (fm == c35Proto || (short && r.Quick())) {
+			continue // label decoration only
 		}
 		if c35Leaked.Load() > 8 {
 			r.NotExhaustive("more than 8 parses never returned; their goroutines keep spinning, remaining cases skipped")
@@ -1199,7 +1200,7 @@ func c35Total(r *vx.Run, fm int, b []byte, what string, outcomes *[3]atomic.Int6
 			if fm == c35OM && o.SkipST && plainErr != nil && c35HangProne(b) {
 				sig = "om-start-timestamp-peek-hangs-on-invalid-exemplar"
 			}
-			r.Violation(sig, fmt.Sprintf("parsing %s %q (options %s) did not return within 10s (Next/StartTimestamp never returns); the same bytes without StartTimestamp calls fail with: %v", what, b, o, plainErr), map[string]any{"facet": "bytes", "fmt": fm, "bytes": fmt.Sprintf("%x", b)})
+			r.Violation(sig, fmt.Sprintf("parsing %s %q (options %s) did not return within 5s (Next/StartTimestamp never returns); the same bytes without StartTimestamp calls fail with: %v", what, b, o, plainErr), map[string]any{"facet": "bytes", "fmt": fm, "bytes": fmt.Sprintf("%x", b)})
 			continue
 		}
 		r.Count("evaluations", 1)
@@ -1220,8 +1221,12 @@ func c35Total(r *vx.Run, fm int, b []byte, what string, outcomes *[3]atomic.Int6
 					r.Violation("histogram-entry-without-histogram/"+c35FmtNames[fm], fmt.Sprintf("Next returned a histogram entry but Histogram() returned neither an integer nor a float histogram, parsing %s %q (options %s)", what, b, o), map[string]any{"facet": "bytes", "fmt": fm, "bytes": fmt.Sprintf("%x", b)})
 				}
 				if es[i].Kind == "series" || es[i].Kind == "hist" {
-					if !utf8.ValidString(es[i].LS.String()) {
-						r.Violation("invalid-utf8-labels-accepted/"+c35FmtNames[fm], fmt.Sprintf("sample with labels that are not valid UTF-8 returned, parsing %s %q (options %s)", what, b, o), map[string]any{"facet": "bytes", "fmt": fm, "bytes": fmt.Sprintf("%x", b)})
+					valid := true
+					// label values are what the parsers themselves promise to validate (names are
+					// validated by the caller under its validation scheme)
+					es[i].LS.Range(func(l labels.Label) { valid = valid && (l.Name == "__name__" || utf8.ValidString(l.Value)) })
+					if !valid {
+						r.Violation("invalid-utf8-label-value-accepted/"+c35FmtNames[fm], fmt.Sprintf("sample with a label value that is not valid UTF-8 returned, parsing %s %q (options %s)", what, b, o), map[string]any{"facet": "bytes", "fmt": fm, "bytes": fmt.Sprintf("%x", b)})
 					}
 				}
 			}
@@ -1320,6 +1325,11 @@ func TestVerifC35(t *testing.T) {
 		})
 	}
 
+	// known-hang probe (element of the mutation space, executed first): if the OpenMetrics
+	// start-timestamp look-ahead still hangs on a malformed exemplar, exactly one goroutine is
+	// abandoned here and later payloads with that precondition are skipped (see c35Total).
+	c35Total(r, c35OM, []byte("# TYPE a counter\na_total 1\na_total{x=\"y\"} 2 # {!} 1\n# EOF\n"), "probe payload", &outcomes)
+
 	// part 2a: all short byte strings
 	maxLen := vx.Pick(r, 5, 6)
 	for fm := c35Text; fm <= c35Proto; fm++ {
@@ -1336,6 +1346,14 @@ func TestVerifC35(t *testing.T) {
 			}
 			if fm == c35OM {
 				c35Total(r, fm, append(append([]byte{}, b...), "\n# EOF\n"...), "short string + EOF marker", &outcomes)
+				if r.Quick() && len(b) >= maxLen {
+					r.Count("short_strings", 1)
+					return // quick: without the EOF marker every OpenMetrics string fails at the end anyway
+				}
+			}
+			if r.Quick() && fm == c35Proto && len(b) >= maxLen {
+				r.Count("short_strings_skipped_quick", 1)
+				return
 			}
 			c35Total(r, fm, b, "short string", &outcomes)
 			r.Count("short_strings", 1)
@@ -1368,9 +1386,9 @@ func TestVerifC35(t *testing.T) {
 			continue
 		}
 		if fm == c35Proto {
-			subs[fm] = append(append([]byte{}, c35AlphaProto...), 0x09, 0x11, 0x19, 0x21, 0x2a, 0x32, 0x42, 0x4a, 0x7a, 0x04, 0x05, 0x10)
+			subs[fm] = append(append([]byte{}, c35AlphaProto...), 0x09, 0x2a, 0x42, 0x10)
 		} else {
-			subs[fm] = append(append([]byte{}, c35AlphaText...), 0x00, 0x80, 0xff, 'E', 'T', 'x', '+', '-', '.', 'I', 'N', '_', ':', '\t', '\r', '0')
+			subs[fm] = append(append([]byte{}, c35AlphaText...), 0x00, 0x80, 'x', '-')
 		}
 	}
 	type job struct {
